@@ -23,9 +23,12 @@ TYPE_HOLES = {
 DROPPED_HOLES = {"code_info"}
 
 
-def strip_repetitions(tokens):
-    """removes `# ( .. ) *` and `# ( .. ) sep *` (generic parameters, argument lists: positions erased by the translation)"""
-    toks = tokens.split(" ")
+def strip_repetitions(tokens, rep_subst=None):
+    """removes `# ( .. ) *` and `# ( .. ) sep *` (generic parameters: positions erased by the translation); a repetition of a
+    single hole named in rep_subst is replaced by the given text (an argument list becomes ONE symbolic argument)"""
+    rep_subst = rep_subst or {}
+    # (proc_macro2 glues punctuation - `(#`, `,*)`, `::<'_` -: split into single tokens, multi-character operators kept)
+    toks = re.findall(r'"(?:[^"\\]|\\.)*"|\'\w+|\w+|::|->|=>|\.\.=?|&&|\|\||==|!=|<=|>=|[-+*/%^&|]=|\S', tokens)
     out, i = [], 0
     while i < len(toks):
         if toks[i] == "#" and i + 1 < len(toks) and toks[i + 1].startswith("("):
@@ -40,6 +43,10 @@ def strip_repetitions(tokens):
                 j += 1
             ms = re.match(r"[,;]?\*(.*)$", toks[j]) if j < len(toks) else None
             if ms:
+                inner = " ".join(toks[i + 1:j])
+                mh = re.fullmatch(r"\( # (\w+)(?: ,)? \)(?: [,;])?", inner.strip())
+                if mh and mh.group(1) in rep_subst:
+                    out.append(rep_subst[mh.group(1)])
                 j += 1
                 if ms.group(1):
                     out.append(ms.group(1))
@@ -51,17 +58,20 @@ def strip_repetitions(tokens):
     return " ".join(out)
 
 
-def instantiate(templates, key, nested):
+def instantiate(templates, key, nested, extra_holes=None, rep_subst=None):
     """source text of template `key` with holes filled: nested = {hole name: template key spliced in its place}"""
     t = dict((x[0], x[-1]) for x in templates)
     if key not in t:
         raise TranslateError("template %s not found in the current source" % key)
-    text = strip_repetitions(t[key])
+    text = strip_repetitions(t[key], rep_subst)
+    extra_holes = extra_holes or {}
 
     def fill(m):
         name = m.group(1)
         if name in nested:
             return " " + instantiate(templates, nested[name], nested) + " "
+        if name in extra_holes:
+            return " " + extra_holes[name] + " "
         if name in TYPE_HOLES:
             return " " + TYPE_HOLES[name] + " "
         if name in DROPPED_HOLES:
@@ -88,3 +98,22 @@ def instantiate_proxy_source(templates):
         raise TranslateError("template of CodeId::instantiate not found (candidates: %s)" % code_id_key)
     code_id = instantiate(templates, code_id_key[0], {})
     return write_source("instantiate_proxy", proxy + "\n" + code_id)
+
+
+METHOD_KINDS = ["exec", "query", "sudo", "migrate"]
+
+
+def proxy_methods_source(templates):
+    """the four kinds of generated proxy method (contract/mt.rs emit_mt_method_definition: exec, query, sudo, migrate), for
+    any contract and any method: the method's name becomes `<kind>_method`, its parameter list ONE parameter `args`, the
+    argument list of the message constructor that one argument"""
+    fns = []
+    for i, kind in enumerate(METHOD_KINDS):
+        key = "contract/mt.rs::<MsgVariant<'_>asEmitMethods>::emit_mt_method_definition#t%d" % i
+        fns.append(instantiate(templates, key, {}, extra_holes={"name": "%s_method" % kind, "api": "ApiT", "type_name": "KindMsg", "return_type": "ReturnT"},
+                               rep_subst={"params": "args : ArgsT ,", "arguments": "args"}))
+    want = {"exec": "ExecProxy :: new", "query": "query_wasm_smart", "sudo": "wasm_sudo", "migrate": "MigrateProxy :: new"}
+    for kind, text in zip(METHOD_KINDS, fns):
+        if want[kind] not in text:
+            raise TranslateError("generated %s proxy method: the template no longer contains `%s`" % (kind, want[kind]))
+    return write_source("proxy_methods", "impl ProxyT { %s }" % " ".join(fns))
